@@ -239,11 +239,8 @@ func (t *QCPendingTree) insertOrphan(node *ProposalNode) error {
 		return nil // 重复退出
 	}
 	t.OrphanMap[utils.F(node.In.GetProposalId())] = true
-	if t.OrphanList.Len() == 0 {
-		t.OrphanList.PushBack(node)
-		return nil
-	}
-	// 遍历整个Sli，查看是否能够挂上
+	// 遍历整个Sli: 所有是node儿子的头节点都要挂在node下面(不能只挂第一个), 同时寻找node的父节点
+	var parent *ProposalNode
 	ptr := t.OrphanList.Front()
 	for ptr != nil {
 		curPtr := ptr
@@ -257,19 +254,20 @@ func (t *QCPendingTree) insertOrphan(node *ProposalNode) error {
 			t.OrphanList.Remove(curPtr)
 			continue
 		}
-		// 查看头节点是否是node的儿子, 直接在头部插入
+		// 查看头节点是否是node的儿子, 是则挂在node下面
 		if bytes.Equal(n.In.GetParentProposalId(), node.In.GetProposalId()) {
 			node.Sons = append(node.Sons, n)
 			t.OrphanList.Remove(curPtr)
-			t.OrphanList.PushBack(node)
-			return nil
+			continue
 		}
-		// 否则遍历该树试图挂在子树上面
-		parent := DFSQuery(n, node.In.GetParentProposalId())
-		if parent != nil {
-			parent.Sons = append(parent.Sons, node)
-			return nil
+		// 否则遍历该树, 查看node的父节点是否在子树里面
+		if parent == nil {
+			parent = DFSQuery(n, node.In.GetParentProposalId())
 		}
+	}
+	if parent != nil {
+		parent.Sons = append(parent.Sons, node)
+		return nil
 	}
 	// 没有可以挂的地方，则直接append
 	t.OrphanList.PushBack(node)
